@@ -78,7 +78,8 @@ package redisemu
 //@ ensures reset.watches: old(ctx.cs.cmdQueue) != nil ==> emptymap(ctx.cs.watches)
 //@ ensures reset.failed: old(ctx.cs.cmdQueue) != nil ==> !ctx.cs.cmdQueueFailed
 //@ ensures failed: old(ctx.cs.cmdQueue) != nil && old(ctx.cs.cmdQueueFailed) ==> dispatched == old(dispatched) && istype(output.data, respErrorString)
-//@ ensures released: !held && lockMode(ctx.dsc)
+// C13: no path of EXEC (aborted by WATCH, failed queue, normal) may keep the store: every later command of every client would wait forever
+//@ ensures [C09,C10,C08,C13] released: !held && lockMode(ctx.dsc)
 //@ ensures all: output.data != nil && !istype(output.data, respErrorString) ==> dispatched == old(dispatched) + old(len(*ctx.cs.cmdQueue))
 //@ loop 1 invariant ctx.dsc.id != 0 && ctx.dsc.ds.multiLock == ctx.dsc.id && held && dispatched == old(dispatched) + ri1 && len(results) == ri1 && ctx.cs != nil && !ctx.cs.cmdQueueFailed
 
@@ -133,7 +134,7 @@ package redisemu
 //@ requires ctx != nil && ctx.dsc != nil && ctx.dsc.ds != nil && cs != nil
 //@ requires [C09,C08] not.owner: !held && lockMode(ctx.dsc)
 //@ modifies *
-//@ ensures !held && lockMode(ctx.dsc)
+//@ ensures [C09,C08,C13] released: !held && lockMode(ctx.dsc)
 
 // one line of CLIENT LIST: the listed connection's own fields are read under its mutex (its commands change them meanwhile)
 //@ func cmdContext.infoUnlocked
